@@ -37,7 +37,7 @@ CONSTANTS
     Mags, Exps,         \* request magnitudes (besides the advertised bounds themselves), exponents
     SCd, Tol            \* fixed-point digits and tolerance (in fixed-point units)
 
-VARIABLES inp,          \* [groups, power, exp]
+VARIABLES inp,          \* [groups, power, exp, work]  (work[g][k]: battery k of group g is reported working)
           pc,           \* control state
           w             \* working record of the algorithm (intermediate values)
 
@@ -138,6 +138,22 @@ Accepts(hp, e, adjust) ==
 InAdvertised(hp, a) == (2 * a.il <= hp /\ hp <= 2 * a.el) \/ (2 * a.eu <= hp /\ hp <= 2 * a.iu)
 \* SystemBounds.__contains__ (closed exclusion interval)
 SysContains(hp, a) == 2 * a.il <= hp /\ hp <= 2 * a.iu /\ ~(2 * a.el <= hp /\ hp <= 2 * a.eu)
+
+\* Working batteries.  Both PowerBoundsCalculator.calculate and BatteryManager._get_components_data
+\* take the WHOLE set of batteries behind a shared inverter as soon as one of them is working (the
+\* data of all of them is complete), and leave out a set none of whose batteries works.
+RECURSIVE EffFrom(_, _, _)
+EffFrom(groups, work, k) ==
+    IF k > Len(groups) THEN <<>>
+    ELSE (IF \E b \in 1..Len(work[k]) : work[k][b] THEN <<groups[k]>> ELSE <<>>) \o EffFrom(groups, work, k + 1)
+Effective(groups, work) == EffFrom(groups, work, 1)
+AllWork(groups) == [k \in 1..Len(groups) |-> [b \in 1..Len(groups[k].bats) |-> TRUE]]
+\* every non-empty set of working batteries
+WorkSets(groups) ==
+    LET all == UNION {{<<k, b>> : b \in 1..Len(groups[k].bats)} : k \in 1..Len(groups)}
+    IN {[k \in 1..Len(groups) |-> [b \in 1..Len(groups[k].bats) |-> <<k, b>> \in S]] : S \in (SUBSET all) \ {{}}}
+PartiallyWorking(work) ==
+    \E k \in 1..Len(work) : (\E b \in 1..Len(work[k]) : work[k][b]) /\ (\E b \in 1..Len(work[k]) : ~work[k][b])
 
 SumMinPower(groups, supply) == SumS([i \in 1..Len(groups) |-> MinPowerOf(Side(groups[i], supply))])
 
@@ -408,23 +424,25 @@ InGap(p, groups) ==
 
 EmitOn == "OUT_FILE" \in DOMAIN IOEnv
 Emit(v) == IF EmitOn THEN CSVWrite("%1$s", <<ToJson(v)>>, IOEnv.OUT_FILE) ELSE TRUE
-NoInp == [groups |-> <<>>, power |-> 0, exp |-> 0]
+NoInp == [groups |-> <<>>, power |-> 0, exp |-> 0, work |-> <<>>]
 
 \* two levels: Init picks the first group and the exponent, Install the rest (shared by the workers)
 Init ==
     /\ pc = "init" /\ w = NoW
-    /\ \E g1 \in GroupSet1, e \in Exps : inp = [groups |-> <<g1>>, power |-> 0, exp |-> e]
+    /\ \E g1 \in GroupSet1, e \in Exps : inp = [groups |-> <<g1>>, power |-> 0, exp |-> e, work |-> <<>>]
 
 Install ==
     /\ pc = "init"
     /\ \E n \in NGroups : \E rest \in [2..n -> GroupSetR] :
          LET gs == [k \in 1..n |-> IF k = 1 THEN inp.groups[1] ELSE rest[k]] IN
          IF Mode = "bounds"
-         THEN inp' = [inp EXCEPT !.groups = gs] /\ Emit([g |-> gs, hp |-> Probes(gs)])
+         THEN \E wk \in WorkSets(gs) :
+                  /\ inp' = [inp EXCEPT !.groups = gs, !.work = wk]
+                  /\ Emit([g |-> gs, wk |-> wk, hp |-> Probes(Effective(gs, wk))])
          ELSE IF Mode = "reject"
-         THEN \E p \in NonAdmitted(gs) : /\ inp' = [inp EXCEPT !.groups = gs, !.power = p]
+         THEN \E p \in NonAdmitted(gs) : /\ inp' = [inp EXCEPT !.groups = gs, !.power = p, !.work = AllWork(gs)]
                                          /\ Emit([g |-> gs, p |-> p, e |-> inp.exp])
-         ELSE \E p \in Requests(gs) : inp' = [inp EXCEPT !.groups = gs, !.power = p]
+         ELSE \E p \in Requests(gs) : inp' = [inp EXCEPT !.groups = gs, !.power = p, !.work = AllWork(gs)]
     /\ pc' = "installed" /\ UNCHANGED w
 
 Prepare == pc = "installed" /\ Mode = "dist" /\ w' = PrepareOf(inp) /\ pc' = "prepared" /\ UNCHANGED inp
@@ -458,9 +476,10 @@ PerInverterInBoundsInv == ClauseInv("PerInverterInBounds")
 GroupInBoundsInv == ClauseInv("GroupInBounds")
 NoHeadroomZeroInv == ClauseInv("NoHeadroomZero")
 (* C17 *)
-AdvertisedAcceptedInv == pc = "installed" => AdvertisedAcceptedOn(inp.groups)
-AtLeastSumMinPowerInv == pc = "installed" => AtLeastSumMinPowerOn(inp.groups)
-InclusionIdenticalInv == pc = "installed" => InclusionIdenticalOn(inp.groups)
+\* (on the battery sets that take part: those with at least one working battery)
+AdvertisedAcceptedInv == pc = "installed" => AdvertisedAcceptedOn(Effective(inp.groups, inp.work))
+AtLeastSumMinPowerInv == pc = "installed" => AtLeastSumMinPowerOn(Effective(inp.groups, inp.work))
+InclusionIdenticalInv == pc = "installed" => InclusionIdenticalOn(Effective(inp.groups, inp.work))
 \* every admitted request of the distribution scope is one the enforced check lets through
 \* (with adjust_power; without it unless it exceeds the inclusion bounds)
 AdmittedIsAcceptedInv ==
